@@ -13,7 +13,8 @@
 //	   both sigmoid arguments are 0 and cancel) within 1e-6 — a tight check of everything but the sigmoid.
 //	B  sigmoid: the float sigmoid and the integer table, BOTH observed through the real code (a crafted
 //	   position + coefficient set makes Eval return sigmoidal(n) alone), for every integer n in
-//	   −1000..1000 ⊇ the reachable king-attack range: |σ(n) − sigm[clamp(n,0,99)]| ≤ 1/2.  This discharges
+//	   of the int16 range (every value a king-attack score can take when no int16 operation wraps):
+//	   |σ(n) − sigm[clamp(n,0,99)]| ≤ 1/2.  This discharges
 //	   the hypothesis `TableNear` of the Lean theorem `int_vs_exact` NUMERICALLY, OUTSIDE LEAN.
 //	C  parameter vector: random coefficient sets and random target subsets through EngineCoeffs /
 //	   ToVector / SetVector / TunedParams against the Lean model (drv_eval), and directly in Go: the i-th
@@ -253,7 +254,21 @@ func (e *env) suiteA(total int) {
 				e.fail("failing-input", ops, fmt.Sprintf("float %s int(white-relative) %d", strconv.FormatFloat(f, 'g', 17, 64), int(s)), answers[i],
 					"float evaluation outside the 2.25 envelope of the integer evaluation")
 			}
-			q, ok := parseRat(answers[i])
+			qf := strings.Fields(answers[i])
+			if len(qf) != 2 {
+				e.fail("broken-correspondence", ops, "", answers[i], "malformed answer from the driver")
+				continue
+			}
+			// the hypothesis of int_vs_exact, evaluated by the Lean model on this position
+			if qf[1] == "1" {
+				e.r.Count("A:noInt16Wrap holds ("+strings.SplitN(name, "(", 2)[0]+")", 1)
+			} else {
+				e.r.Count("A:noInt16Wrap FAILS ("+strings.SplitN(name, "(", 2)[0]+")", 1)
+				if useShipped {
+					e.r.Notes = append(e.r.Notes, "noInt16Wrap fails with the shipped coefficients on "+fens[i])
+				}
+			}
+			q, ok := parseRat(qf[0])
 			if !ok {
 				e.fail("broken-correspondence", ops, "", answers[i], "malformed rational from the driver")
 				continue
@@ -299,7 +314,7 @@ func (e *env) suiteB() {
 		panic(err)
 	}
 	worst := 0.0
-	for n := -1000; n <= 1000; n++ {
+	for n := -32768; n <= 32767; n++ {
 		ef := tuning.EngineRep{}
 		ef.KingAttackPieces[0][0] = float64(n)
 		ef.KingShelter[0] = -1000
@@ -326,7 +341,7 @@ func (e *env) suiteB() {
 		}
 	}
 	e.r.Count("B:max|sigma-table| (milli)", int(math.Ceil(worst*1000)))
-	e.r.Count("B:integers checked", 2001)
+	e.r.Count("B:integers checked", 65536)
 }
 
 // ---------------------------------------------------------------------------------------------
@@ -357,12 +372,26 @@ func (e *env) randomTargets(rng *rand.Rand) []string {
 	return t
 }
 
+// safely runs f and reports whether it panicked.
+func safely(f func()) (panicked bool) {
+	defer func() {
+		if r := recover(); r != nil {
+			panicked = true
+		}
+	}()
+	f()
+	return false
+}
+
 func (e *env) suiteC(rounds int) {
 	rng := e.c.Rng
 	nCells := len(e.cells)
 	// EngineCoeffs
 	{
-		ec := tuning.EngineCoeffs()
+		var ec tuning.EngineRep
+		if safely(func() { ec = tuning.EngineCoeffs() }) {
+			e.fail("failing-input", []string{"EngineCoeffs"}, "panic", "", "EngineCoeffs panicked")
+		}
 		got := intsLine(raw(&ec, nCells))
 		want := e.m.Ask("ec")
 		e.r.Evaluations++
@@ -412,7 +441,11 @@ func (e *env) suiteC(rounds int) {
 		e.r.Count(fmt.Sprintf("C:targets=%d", min(len(targets), 18)), 1)
 
 		// ToVector
-		vec := ef.ToVector(targets).VectorToSlice()
+		var vec []float64
+		if safely(func() { vec = ef.ToVector(targets).VectorToSlice() }) {
+			e.fail("failing-input", append(ops, "ToVector"), "panic", "", "ToVector panicked")
+			continue
+		}
 		if want := e.m.Ask("tv " + ta + " | " + leavesLine); intsLine(vec) != want {
 			e.fail("broken-correspondence", append(ops, "ToVector"), intsLine(vec), want, "ToVector differs from the model")
 		}
@@ -425,30 +458,32 @@ func (e *env) suiteC(rounds int) {
 		okIdx := true
 		i := 0
 		basePtr := uintptr(unsafe.Pointer(&ef))
-		for k, ptr := range ef.TunedParams(targets) {
-			off := (uintptr(unsafe.Pointer(ptr)) - basePtr) / 8
-			if int(off) >= nCells {
-				gotTP = append(gotTP, fmt.Sprintf("%d:outside", k))
-				okIdx = false
-				continue
+		tpPanic := safely(func() {
+			for k, ptr := range ef.TunedParams(targets) {
+				off := (uintptr(unsafe.Pointer(ptr)) - basePtr) / 8
+				if int(off) >= nCells {
+					gotTP = append(gotTP, fmt.Sprintf("%d:outside", k))
+					okIdx = false
+					continue
+				}
+				ci := e.cells[off]
+				ps := make([]string, len(ci.path))
+				for j, x := range ci.path {
+					ps[j] = strconv.Itoa(x)
+				}
+				gotTP = append(gotTP, fmt.Sprintf("%d:%d:%s", k, ci.field, strings.Join(ps, ".")))
+				// the property, directly: index k, pointer reads the k-th element of ToVector …
+				if k != i || k >= len(vec) || *ptr != vec[k] {
+					okIdx = false
+				}
+				i++
 			}
-			ci := e.cells[off]
-			ps := make([]string, len(ci.path))
-			for j, x := range ci.path {
-				ps[j] = strconv.Itoa(x)
-			}
-			gotTP = append(gotTP, fmt.Sprintf("%d:%d:%s", k, ci.field, strings.Join(ps, ".")))
-			// the property, directly: index k, pointer reads the k-th element of ToVector …
-			if k != i || k >= len(vec) || *ptr != vec[k] {
-				okIdx = false
-			}
-			i++
-		}
-		if i != len(vec) {
+		})
+		if tpPanic || i != len(vec) {
 			okIdx = false
 		}
 		// … and writes it: perturb through the pointer, read back through ToVector
-		if okIdx {
+		if okIdx && safely(func() {
 			j := 0
 			for k, ptr := range ef.TunedParams(targets) {
 				if j%37 == round%37 { // a sample of the cells each round
@@ -468,6 +503,8 @@ func (e *env) suiteC(rounds int) {
 				}
 				j++
 			}
+		}) {
+			okIdx = false
 		}
 		if !okIdx {
 			e.fail("failing-input", append(ops, "TunedParams", "ToVector"), strings.Join(gotTP, " "), "",
@@ -509,7 +546,10 @@ func (e *env) suiteC(rounds int) {
 			}
 			if st == "ok" {
 				// ToVector ∘ SetVector = id on the consumed prefix; unselected cells untouched
-				back := dst.ToVector(targets).VectorToSlice()
+				var back []float64
+				if safely(func() { back = dst.ToVector(targets).VectorToSlice() }) {
+					back = nil
+				}
 				ok := len(back) == len(vec)
 				for i := range back {
 					if i < len(v) && back[i] != v[i] {
@@ -526,8 +566,9 @@ func (e *env) suiteC(rounds int) {
 		// SetVector ∘ ToVector = id
 		{
 			dst := ef
-			dst.SetVector(tuning.VectorFromSlice(append([]float64{}, vec...)), targets)
-			if dst != ef {
+			if safely(func() { dst.SetVector(tuning.VectorFromSlice(append([]float64{}, vec...)), targets) }) {
+				e.fail("failing-input", append(ops, "ToVector", "SetVector"), "panic", leavesLine, "SetVector(ToVector(e)) panicked")
+			} else if dst != ef {
 				e.fail("failing-input", append(ops, "ToVector", "SetVector"), intsLine(raw(&dst, nCells)), leavesLine, "SetVector(ToVector(e)) != e")
 			}
 		}
